@@ -21,6 +21,7 @@ from .alphabet import session_messages
 
 ESTABLISHED = [('TICK', 0), ('CONN_OK', 0), ('RX', 0, 'OPEN_OK'), ('RX', 0, 'KA')]
 HOLD_REQS = ('send_update', 'send_rr', 'send_bin2')
+RX_HOSTILE = ('KA', 'NOTIF_CEASE', 'BAD_MARKER', 'UPD_MALFORMED', 'BAD_LEN18', 'OPEN_OK', 'NOTIF_SHORT')
 RX = {'quick': ('KA', 'NOTIF_CEASE', 'KA+NOTIF', 'KA+UPD', 'BAD_MARKER'),
       'thorough': ('KA', 'UPD', 'NOTIF_CEASE', 'KA+NOTIF', 'KA+UPD', 'KA+BAD', 'UPD+KA+NOTIF', 'BAD_MARKER', 'RR')}
 WINDOW = {'quick': 3, 'thorough': 4}
@@ -69,6 +70,19 @@ def baseline(cfg, pre, req):
 def judge(prop, w, hist, accepted_tid, expect, drained_obs):
     from .props import c18
     v = []
+    if prop == 'C10':
+        # closed cleanly with the reconnect scheduled: once no connection is left, the only timers that may be armed are the ones that
+        # bring the session back (a keepalive / hold timer of the dead session would throw the reconnect back to Idle)
+        m = _m()
+        while w.disconnecting():
+            w.step(('CLOSE_DONE', 0), m)
+        if not w.readable() and not w.connecting():
+            stale = sorted(set(dc.name for dc in w.sim.calls) - set(('idle_hold_time_event', 'connect_retry_time_event', 'connect_timeout')))
+            if stale:
+                v.append(('C10|deferred|timers of the dead session are armed after the held write ran', {'timers': stale, 'state': w.reported_state()}))
+            if not w.sim.calls and w.fsm.allow_automatic_start:
+                v.append(('C10|deferred|no connection, no attempt and no timer left after the held write ran', {'state': w.reported_state()}))
+        return v
     if prop == 'C16':
         everything = []
         for c in w.sim.connectors:
@@ -141,8 +155,8 @@ def task(args):
     """all windows of up to K events between one held request and its drain, from one (pre, request) pair"""
     prop, tier, cfg, pre, req = args
     m = _m()
-    rx = RX[tier]
-    K = WINDOW[tier]
+    rx = RX[tier] if prop != 'C10' else RX_HOSTILE
+    K = WINDOW[tier] if prop != 'C10' else WINDOW[tier] - 1
     head = ([('MQ', pre)] if pre else []) + [('REST_HOLD', req)]
     n = 0
     viol = []
@@ -177,8 +191,8 @@ def task(args):
 def tasks(prop, tier):
     out = []
     for cfg in ({},):
-        for pre in PRE:
-            for req in HOLD_REQS:
+        for pre in (PRE if prop != 'C10' else (None, 'good_update')):
+            for req in (HOLD_REQS if prop != 'C10' else ('send_update', 'send_rr')):
                 out.append((prop, tier, cfg, pre, req))
     return out
 
